@@ -166,6 +166,7 @@ type World struct {
 	envForce      bool
 	zombies       []*Actor
 	Registry      *Registry
+	resynced      bool // the plan ran a resync round at quiescence (every controller reconciled every key once more)
 	sweepCount    int
 	sweepTeardown []int             // request indexes (sweep numbering) issued by passes of an owner that is being torn down
 	Taint         map[string]string // object key -> cause tag set by a monitor (e.g. stale takeover)
